@@ -1431,14 +1431,23 @@ def m_position(E, st, f, a, k, e):
     _two_way(E, st, a[0], lambda s: k(s, NONE), lambda s, x: E.call_closure(s, a[1], [x], lambda s2, r: E.fork_bool(s2, r, lambda s3: k(s3, SOME(('pos', a[0]))), lambda s3: k(s3, NONE))))
 
 
+def _exhausted(E, st, it):
+    """mark: the consumer ran the iterator to its end on this path (the symbolic element stands for all)"""
+    if isinstance(it, tuple) and it[0] == 'r':
+        inner = E.read(st, it[1])
+        if isinstance(inner, tuple) and inner[0] in ('it', 'call', 'p', 'f', 'd', 'agg'):
+            it = inner
+    st.conds.append((('exhausted', it), True))
+
+
 @model(ITER + 'find')
 def m_find(E, st, f, a, k, e):
-    _two_way(E, st, a[0], lambda s: k(s, NONE), lambda s, x: E.call_closure(s, a[1], [tmp_ref(s, x)], lambda s2, r: E.fork_bool(s2, r, lambda s3: k(s3, SOME(x)), lambda s3: k(s3, NONE))))
+    _two_way(E, st, a[0], lambda s: k(s, NONE), lambda s, x: E.call_closure(s, a[1], [tmp_ref(s, x)], lambda s2, r: E.fork_bool(s2, r, lambda s3: k(s3, SOME(x)), lambda s3: (_exhausted(E, s3, a[0]), k(s3, NONE))[1])))
 
 
 @model(ITER + 'find_map')
 def m_find_map(E, st, f, a, k, e):
-    _two_way(E, st, a[0], lambda s: k(s, NONE), lambda s, x: E.call_closure(s, a[1], [x], lambda s2, r: E.match_option(s2, r, lambda s3, y: k(s3, SOME(y)), lambda s3: k(s3, NONE))))
+    _two_way(E, st, a[0], lambda s: k(s, NONE), lambda s, x: E.call_closure(s, a[1], [x], lambda s2, r: E.match_option(s2, r, lambda s3, y: k(s3, SOME(y)), lambda s3: (_exhausted(E, s3, a[0]), k(s3, NONE))[1])))
 
 
 @model(ITER + 'try_for_each')
